@@ -1,9 +1,19 @@
-(** Property C01 — theorems only; proofs live in Proofs/. *)
+(** Property C01 — success means valid: no issues implies every declared constraint holds. *)
 From Coq Require Import String List.
-From Zog Require Import Model.Val Model.Engine Spec.Sem Proofs.Refine.
+From Zog Require Import Model.Val Model.Engine Spec.Sem Spec.Satisfies Proofs.Refine Proofs.SatP.
 
-(** The executable engine (flags, shared child context, mutable path stack, one issue log) computes
-    exactly the context-free semantics, for every schema, mode, input and destination. *)
+(** For every schema without PostTransforms (a user transform may legitimately change a value after
+    it was tested), every destination of the matching shape, every input, both modes, and — the
+    schema's field list being its visit order — every visit order: if the engine returns no issue,
+    the destination satisfies every test declared on every node that has a value, every
+    Required / NotNil node had a present value, absent optional nodes are untested, and a Catch node
+    holds its parsed value or its catch value.  [satisfies] is written against the documentation,
+    independently of the engine (Spec/Satisfies.v). *)
+Theorem C01_success_means_valid : forall m s dat d, pt_free s = true -> wf s d ->
+  o_issues (run m s dat d) = nil -> satisfies m s dat (o_dest (run m s dat d)) = true.
+Proof. exact success_means_valid. Qed.
+Print Assumptions C01_success_means_valid.
+
 Theorem C01_engine_computes_semantics : forall m s dat d, run m s dat d = sem_run m s dat d.
 Proof. exact run_is_sem_run. Qed.
 Print Assumptions C01_engine_computes_semantics.
